@@ -154,6 +154,12 @@ func (s *ItemSpec) Make() Made {
 		m.Item = errors.New(string(s.Str))
 	case "dur":
 		m.Item = time.Duration(s.Num)
+	case "ifacestruct":
+		// a comparable TYPE (struct with an interface field, array of interfaces) whose VALUE holds a slice: fine to
+		// print and to encode, not fine to use as a map key or to compare with ==
+		m.Item = IfaceStruct{Kind: string(s.Str), Payload: []string{"a", "b"}}
+	case "ifacearr":
+		m.Item = [2]interface{}{string(s.Str), []int{1, 2}}
 	case "anonG":
 		// unnamed struct types: no name, no package path - but the methods of their embedded fields are promoted
 		m.Item = struct{ VG_0 }{VG_0{G: string(s.Str), S: "<wrong: field S>"}}
@@ -261,6 +267,12 @@ type aggState struct{ S string }
 type AggStringer struct{ st *aggState }
 
 func (a AggStringer) String() string { return a.st.S }
+
+// IfaceStruct is comparable as a type, but not when Payload holds a slice, map or func.
+type IfaceStruct struct {
+	Kind    string
+	Payload interface{}
+}
 
 // Types whose only text method is fmt.Formatter: "anything else is formatted as fmt's %v", and %v asks the operand
 // for Format before anything else.  One per scalar kind, and a struct.
@@ -488,7 +500,7 @@ func (r *R) AnyItem(fam Fam, maxAtoms, depth int) ItemSpec {
 	case 4:
 		return ItemSpec{K: "bool", Num: int64(r.Intn(2))}
 	case 5:
-		return ItemSpec{K: Pick(r, []string{"mystr", "bytes", "err", "fmtstr", "aggslice", "aggstringer", "aggarrmap", "anonG", "anonPS", "anonSE", "tplhtml", "tpljs", "tplurl", "tplattr", "tplhtml", "jsonnumber"}), Str: Q(r.Str(fam, maxAtoms))}
+		return ItemSpec{K: Pick(r, []string{"mystr", "bytes", "err", "fmtstr", "aggslice", "aggstringer", "aggarrmap", "anonG", "anonPS", "anonSE", "tplhtml", "tpljs", "tplurl", "tplattr", "tplhtml", "jsonnumber", "ifacestruct", "ifacearr"}), Str: Q(r.Str(fam, maxAtoms))}
 	case 6:
 		return ItemSpec{K: Pick(r, []string{"slice", "map", "struct", "structptr", "complex", "complex64", "fmtfloat"}), Str: Q(r.Str(FAscii, 2)), Num: int64(r.Intn(9)), Flt: 1.5}
 	case 7:
